@@ -97,10 +97,10 @@ impl Monitor for C20 {
         "cases = seeded universes (hints All/Some/None, favored candidates that are not rank-first, random ranks, missing packages) and a random sequence of 40 SolverCache queries (candidates / matching / non-matching / sorted single / sorted union / dependencies, repeats frequent) on a bare SolverCache::new(provider); after every query the answer is compared with the reference (partition by filter_candidates, rank order with favored rotated to the front and the rest in unchanged relative order, union = concatenation in member order), are_dependencies_available_for is compared with (fetched or (package fetched and hinted)) for EVERY solvable, and at the end every slice reference returned earlier is re-read and the provider log is checked for a repeated get_candidates / get_dependencies. Second part: the same universe is solved with a provider whose sort_candidates queries the cache RE-ENTRANTLY (candidates of the package being sorted, dependencies of the solvables being sorted, matching / non-matching of other version sets), answers judged the same way and the solve result compared with a plain solve. distinct = content hash incl. queries; non-trivial = case with a favored candidate that is not rank-first among queried packages and >= 1 repeated query".into()
     }
     fn cases(&self, tier: Tier) -> u64 {
-        tier.pick(20_000, 1_000_000)
+        tier.pick(160_000, 3_200_000)
     }
     fn floor(&self, tier: Tier) -> u64 {
-        tier.pick(1_500, 80_000)
+        tier.pick(6_000, 60_000)
     }
     fn generate(&self, r: &mut Rng, _tier: Tier, _i: u64) -> C20Case {
         let (name, mut cfg) = pick_family(r, FAMILIES);
